@@ -1,5 +1,6 @@
 """Binding between ComposeInfoDoc.tla emissions and the real ComposeInfo class (C01, C05, C08)."""
 import json
+import zlib
 import os
 import tempfile
 from . import core
@@ -47,18 +48,30 @@ class Conc(object):
     def uid(self, path):
         return "-".join(self.tok[t] for t in path)
 
+    def pretty(self, path):
+        """pretty name of the variant at `path`: free text, its ID, its UID - a name that coincides with an identifier is a
+        name like any other"""
+        uid = self.uid(path)
+        return ["Pretty " + uid, self.tok[path[-1]], "Pretty " + uid, uid][zlib.crc32(("%s/%d" % (uid, self.rot)).encode("utf-8")) % 4]
+
+    def pretty_dash(self):
+        return ["Pretty dash", self.dashid, self.dashuid][self.rot % 3]
+
+    def pretty_dashkid(self):
+        return ["Pretty dash kid", self.tok["o"]][self.rot % 2]
+
     def token(self, s):
         if s.startswith("$path:"):
             _, u, c, a = s.split(":")
             return "%s/%s/%s" % ("-".join(self.tok[t] for t in u.split("-")), self.arch[a], self.cat[c])
         if s == "$name:dash":
-            return "Pretty dash"
+            return self.pretty_dash()
         if s == "$name:dashkid":
-            return "Pretty dash kid"
+            return self.pretty_dashkid()
         if s == "$dashkiduid":
             return self.dashuid + "-" + self.tok["o"]
         if s.startswith("$name:"):
-            return "Pretty " + "-".join(self.tok[t] for t in s[6:].split("-"))
+            return self.pretty(s[6:].split("-"))
         if s.startswith("$label:"):
             return "%s-%s" % (s[7:], self.labelver)
         if s == "$dashid":
@@ -151,7 +164,8 @@ def build(obj, conc):
         v = Variant(ci)
         v.id = conc.tok[p[-1]]
         v.uid = conc.uid(p)
-        v.name = "Pretty " + v.uid
+        # pretty name: free text, the variant's ID, its UID (a name that coincides with an identifier is a name like any other)
+        v.name = conc.pretty(p)
         v.type = nd["type"]
         v.arches = set(conc.arch[a] for a in nd["arches"])
         if v.type == "layered-product":
@@ -166,11 +180,11 @@ def build(obj, conc):
         objs[tuple(p)] = v
     if obj["dashed"]:
         v = Variant(ci)
-        v.id, v.uid, v.name, v.type, v.arches = conc.dashid, conc.dashuid, "Pretty dash", "variant", set([conc.arch["x"]])
+        v.id, v.uid, v.name, v.type, v.arches = conc.dashid, conc.dashuid, conc.pretty_dash(), "variant", set([conc.arch["x"]])
         ci.variants.add(v)
         if obj.get("dashkid"):
             k = Variant(ci)
-            k.id, k.uid, k.name, k.type, k.arches = conc.tok["o"], conc.dashuid + "-" + conc.tok["o"], "Pretty dash kid", "optional", set([conc.arch["x"]])
+            k.id, k.uid, k.name, k.type, k.arches = conc.tok["o"], conc.dashuid + "-" + conc.tok["o"], conc.pretty_dashkid(), "optional", set([conc.arch["x"]])
             v.add(k)
     return ci
 
@@ -319,6 +333,8 @@ def evaluate(case):
             c3.load(p)
             return c3.dumps()
         fails += core.file_cycle(ci, text, what, "composeinfo.json", reload=reload)
+    if not fails:
+        fails += core.dict_cycle(ci, text, what)
     if not fails and case.get("uptype"):
         # release types spelled with capitals: the documented normalisation is case-folding.  If the library agrees to write
         # such a description, the cycle must hold for it (file re-read and re-written byte for byte, type read lower-case)
